@@ -68,6 +68,19 @@ def make_backends(ctx, d, names):
     return out
 
 
+def col_form(tok, k, width=NC):
+    """The same channel selection in the forms NumPy accepts: index list, integer array, boolean mask (when the
+    selection is strictly increasing, so that a mask can express it)."""
+    cols = COLS[tok]
+    if k % 3 == 1:
+        return np.asarray(cols, dtype=[np.int32, np.int64, np.uint8][k % 3])
+    if k % 3 == 2 and cols == sorted(set(cols)) and max(cols) < width:
+        mask = np.zeros(width, dtype=bool)
+        mask[cols] = True
+        return mask if k % 2 else [bool(b) for b in mask]
+    return cols
+
+
 def apply_eager(x, op):
     name, tok = op
     if name == 'cols':
@@ -154,7 +167,7 @@ def replay_history(ctx, case, backends):
                 name, tok = op
                 rp = readers[parent]
                 if name == 'cols':
-                    r_new = rp[:, COLS[tok]]
+                    r_new = rp[:, col_form(tok, k + len(hist), eagers[parent].shape[1])]
                 elif name in UNOPS:
                     r_new = UNOPS[name](rp)
                 else:
@@ -223,7 +236,7 @@ def _random_forest_records(ctx, backends, rng, rid0, steps):
                 continue
             name, tok = op
             rp = readers[parent]
-            r_new = (rp[:, COLS[tok]] if name == 'cols' else
+            r_new = (rp[:, col_form(tok, len(recs), eagers[parent].shape[1])] if name == 'cols' else
                      UNOPS[name](rp) if name in UNOPS else BINOPS[name](rp, SCALARS[tok]))
             x = len(readers) + 1
             readers[x], eagers[x] = r_new, e_new
